@@ -739,3 +739,67 @@ func pieceSizeProducts64(r *Report, rule string) {
 	}
 	r.Sentinel(rule+".piece-size-products", n, 2)
 }
+
+// offsetsNotNarrowed: byte offsets and lengths in a torrent are int64 (a torrent can exceed 4 GiB); an int64 taken as
+// it stands — a parameter, a field, a call result — is not converted to a type of 32 bits or fewer unless its range is
+// known to fit: the reduction (off % pieceSize, off / pieceSize, a difference clipped by a guard) comes first.
+// uint32(off) % pieceSize is right for every torrent under 4 GiB and for every power-of-two piece size, and wrong
+// beyond: the reader is served verified bytes of another place.
+func offsetsNotNarrowed(r *Report, rule string) {
+	p := r.P
+	env := &IntEnv{}
+	n := 0
+	raw := func(v ssa.Value) bool {
+		switch x := v.(type) {
+		case *ssa.Parameter:
+			return true
+		case *ssa.UnOp:
+			if x.Op != token.MUL {
+				return false
+			}
+			switch x.X.(type) {
+			case *ssa.FieldAddr, *ssa.Alloc, *ssa.Global:
+				return true
+			}
+		case *ssa.Field:
+			return true
+		}
+		return false
+	}
+	sized32 := func(t types.Type) bool {
+		b, ok := t.Underlying().(*types.Basic)
+		if !ok {
+			return false
+		}
+		switch b.Kind() {
+		case types.Int8, types.Int16, types.Int32, types.Uint8, types.Uint16, types.Uint32:
+			return true
+		}
+		return false
+	}
+	is64 := func(t types.Type) bool {
+		b, ok := t.Underlying().(*types.Basic)
+		return ok && (b.Kind() == types.Int64 || b.Kind() == types.Uint64)
+	}
+	for _, f := range p.SrcFuncs() {
+		switch relPkg(f) {
+		case "tor", "peer", "tor/piece", "http", "fuse", "webseed":
+		default:
+			continue
+		}
+		allInstrs(f, func(in ssa.Instruction) {
+			cv, ok := in.(*ssa.Convert)
+			if !ok || !sized32(cv.Type()) || !is64(cv.X.Type()) || !raw(cv.X) {
+				return
+			}
+			n++
+			r.Fn(f)
+			iv := env.At(cv.X, cv.Block())
+			tr := typeRange(cv.Type())
+			good := iv.Lo >= tr.Lo && iv.Hi <= tr.Hi
+			r.Check(good, rule, fmt.Sprintf("%s/%s(%s)-fits", fname(f), cv.Type().String(), exprStr(cv.X)), cv.Pos(), "the 64-bit quantity is known to fit the narrower type here ("+iv.String()+")",
+				fmt.Sprintf("the 64-bit byte quantity %s is cut down to %s while it is only known to be in %s: for torrents of 4 GiB and more the high bits are lost before the value is reduced (off %% pieceSize, off / pieceSize), and the data served or stored belongs to another place", exprStr(cv.X), cv.Type().String(), iv))
+		})
+	}
+	r.Sentinel(rule+".narrowings", n, 0)
+}
